@@ -433,6 +433,10 @@ pub struct Run {
     /// relational cases: keep ticking where the loop would park in `rx.recv()` (that parking is
     /// unobservable is property C07, not this one); `can_block_update_idle_waiting` is still called
     pub never_block: bool,
+    /// [t7:parked] what is down at the OS when the loop may park for the first time after a reload
+    /// has been applied: with no further input it stays down for good
+    pub parked_after_reload: Option<Vec<String>>,
+    reload_seen: bool,
 }
 
 impl Run {
@@ -450,6 +454,8 @@ impl Run {
             tainted: false,
             err: None,
             never_block: false,
+            parked_after_reload: None,
+            reload_seen: false,
         }
     }
     fn path_idx(&self, s: &str) -> String {
@@ -486,6 +492,7 @@ impl Run {
                 let p = l.rsplit(": ").next().unwrap_or("").trim();
                 format!("rq{}", self.path_idx(p))
             } else if l.starts_with("Live reload successful") {
+                self.reload_seen = true;
                 "ok".to_string()
             } else {
                 "fail".to_string()
@@ -535,6 +542,9 @@ impl Run {
     /// one iteration of the processing loop without input; returns false if the loop would block
     pub fn idle(&mut self, ms: u16) -> bool {
         let can_block = self.k.can_block_update_idle_waiting(self.ms_prev);
+        if can_block && self.reload_seen && self.parked_after_reload.is_none() {
+            self.parked_after_reload = Some(pressed_set(&self.trace));
+        }
         if can_block && !self.never_block {
             return false;
         }
@@ -931,6 +941,10 @@ fn rich_old(i: usize, reload: &str) -> String {
         2 => format!(
             "(defcfg sequence-timeout 2000)\n(defsrc a s d f g h j k l ;)\n(defvirtualkeys sq z)\n(defseq sq (1 2))\n(deflayer base 1 {reload} 2 sldr rpt dynamic-macro-record-stop 3 (unshift 4) (on-press press-vkey sq) (on-press release-vkey sq))\n"
         ),
+        // [t7:parked] an arbitrary OS code held by a key, and an unmod key next to it
+        4 => format!(
+            "(defsrc a s d f g h j k l ;)\n(deflayer base (arbitrary-code 700) {reload} (unmod 5) (multi (arbitrary-code 701) 6) 1 2 3 4 7 8)\n"
+        ),
         // zippychord: process-global state that a reload into a configuration without defzippy must clear
         _ => format!(
             "(defsrc a s d f g h j k l ;)\n(deflayer base a {reload} d f g h j k l ;)\n(defzippy {})\n",
@@ -996,10 +1010,13 @@ fn scenario(h: usize) -> Scen {
         20 => Scen { old: 2, before: vec![P(K_L), T(3), R(K_L), T(5)], after: vec![T(1100), P(K_SC), T(2), R(K_SC), T(5)] }, // virtual key left pressed, released 1.1 s after the request
         21 => Scen { old: 2, before: vec![P(K_D), T(3), R(K_D), T(3)], after: vec![T(5)] },                      // a key typed before (rpt)
         22 => Scen { old: 3, before: vec![T(5)], after: vec![T(5)] },                                            // zippychord dictionary loaded
-        _ => Scen { old: 3, before: vec![P(K_D), T(5), P(K_F), T(20), R(K_D), R(K_F), T(10)], after: vec![T(5)] }, // a chord typed before
+        23 => Scen { old: 3, before: vec![P(K_D), T(5), P(K_F), T(20), R(K_D), R(K_F), T(10)], after: vec![T(5)] }, // a chord typed before
+        24 => Scen { old: 4, before: vec![P(K_A), T(10)], after: vec![T(20), R(K_A), T(5)] },                    // arbitrary code held (reload at once: no output key is down)
+        25 => Scen { old: 4, before: vec![P(K_F), T(10)], after: vec![T(1100), R(K_F), T(5)] },                  // arbitrary code next to a key: idle-second reload
+        _ => Scen { old: 4, before: vec![P(K_D), T(10)], after: vec![T(1500)] },                                 // unmod key still held when the idle-second reload fires, and after it
     }
 }
-pub const N_SCEN: usize = 24;
+pub const N_SCEN: usize = 27;
 
 fn rcode(k: usize) -> u16 {
     osc(RKEYS[k])
@@ -1074,6 +1091,19 @@ fn pressed_set(trace: &[(u32, String)]) -> Vec<String> {
         } else if let Some(b) = t.strip_prefix("o[out🖰:↑") {
             let b = format!("btn{}", b.trim_end_matches(']'));
             down.retain(|x| *x != b);
+        } else if let Some(c) = t.strip_prefix("o[out-code:") {
+            // [t7:parked] (arbitrary-code n): `out-code:n;Press` / `out-code:n;Release`
+            let c = c.trim_end_matches(']');
+            if let Some((n, v)) = c.split_once(';') {
+                let name = format!("code{n}");
+                if v == "Press" {
+                    if !down.contains(&name) {
+                        down.push(name);
+                    }
+                } else if v == "Release" {
+                    down.retain(|x| *x != name);
+                }
+            }
         }
     }
     down.sort();
@@ -1226,7 +1256,14 @@ fn run_r(hist: usize, kind: &str, newi: usize, seed: u64) -> (String, bool) {
             });
         }
     }
-    let pressed = pressed_set(&a.trace);
+    let mut pressed = pressed_set(&a.trace);
+    // [t7:parked] "nothing stays pressed" also holds for the real loop, which parks as soon as it may
+    for x in a.parked_after_reload.clone().unwrap_or_default() {
+        if !pressed.contains(&x) {
+            pressed.push(x);
+        }
+    }
+    pressed.sort();
     let start_a = a.iter;
     play(&mut a, &cont);
     let a_tr = rel_trace(&a.trace, start_a);
